@@ -86,10 +86,12 @@ def run(report, index, tier):
     r.check(mask == cont - 1 == 31, 'VLQ_BASE_MASK',
             'VLQ_BASE_MASK = %d' % mask, 'base mask must be VLQ_CONT - 1')
     # R10.2: the codec functions folded on the group boundaries ------------
-    r2 = report.rule('R10.2', 'encode / decode folded on every 5-bit group '
-                     'boundary up to 2**49, and on a few larger values, '
+    r2 = report.rule('R10.2', 'encode / decode folded on every integer of [-2100, 2100], '
+                     'every power of two up to 2**65 with its neighbours, '
+                     'every 5-bit group boundary, and all ordered pairs of '
+                     'a value pool: they '
                      'give the canonical Source Map V3 digits and invert '
-                     'each other', floor=80)
+                     'each other', floor=500)
     from engine.absint import Evaluator, Raised
 
     def ev():
@@ -114,6 +116,12 @@ def run(report, index, tier):
     for k in range(0, 10):
         b_ = 1 << (4 + 5 * k)
         values |= {b_ - 1, b_, b_ + 1, -(b_ - 1), -b_, -(b_ + 1)}
+    # every small integer (tables of precomputed encodings end somewhere
+    # in this range) and every power of two with its neighbours
+    values |= set(range(-2100, 2101))
+    for k in range(1, 66):
+        for d in (-1, 0, 1):
+            values |= {(1 << k) + d, -((1 << k) + d)}
     for i in sorted(values, key=lambda v: (abs(v), v)):
         want = reference_vlq(i)
         got = call('encode_vlq', i)
@@ -127,6 +135,12 @@ def run(report, index, tier):
                      want, back, i), where='vlq.py:vlq_decoder')
     seqs = [(0, 0, 0, 0), (1, -1, 16, -16), (123456, 0, -7, 2 ** 40),
             (), (5,)]
+    # decoder state must not leak from one value to the next: all ordered
+    # pairs over short / long, negative / positive values
+    pool = (0, 1, -1, 15, -15, 16, -16, 20, -20, 40, -40, 1000, -1000,
+            2 ** 20, -(2 ** 20))
+    seqs += [(a_, b_) for a_ in pool for b_ in pool]
+    seqs += [(-20, 40, -1000, 7), (40, -20, 16, -16, 0)]
     for seq in seqs:
         want = ''.join(reference_vlq(i) for i in seq)
         got = call('encode_vlqs', list(seq))
